@@ -618,10 +618,13 @@ def validate_int(value):
     """Make sure this value is an int or a Constant that is an int."""
     if isinstance(value, QConstant):
         pre_value = value.value
-        post_value = int(value.value)
     else:
         pre_value = value
-        post_value = int(value)
+    try:
+        post_value = int(pre_value)
+    except (TypeError, ValueError, OverflowError):
+        # e.g. None, a string, nan or infinity
+        raise JaqalError(f"Invalid int value {value}")
     if pre_value != post_value:
         raise JaqalError(f"Invalid int value {value}")
     return value
